@@ -231,3 +231,8 @@ def run(ctx):
     ctx.add_sample({"script": execs[0][:14]})
     ctx.add_sample({"script": execs[-1][:14]})
     pipeline.drive_and_validate(ctx, exe, execs, SPEC_DIR, "PQTrace", "Trace.cfg", label="pq")
+    # queues of their own on several threads at once (Stateless.tla: an operation = a whole pseudo-random program on a private
+    # queue, one outcome whoever runs it and whatever the others do) and a ThreadSanitizer pass over the same scenarios: state
+    # hidden behind the API and shared between unrelated queues is a data race whatever the schedule
+    from checks import stateless_common
+    stateless_common.drive(ctx, ["qp", "qp", "la"], thorough, n=40 if not thorough else 1000)
